@@ -6,7 +6,9 @@
   * `getOneQubitGate_eq_kron` : `np.kron(np.kron(I_{2^q}, g), I_{2^(n-q-1)})`;
   * `getTwoQubitControlledGate_eq_literal` : `np.eye(2^n) + K/2` with
       `K = kron(kron(kron(kron(I_{2^c}, I₂ − Z), I_{2^(t-c-1)}), g − I₂), I_{2^(n-t-1)})` for `c < t` and
-      `K = kron(kron(kron(kron(I_{2^t}, g − I₂), I_{2^(c-t-1)}), I₂ − Z), I_{2^(n-c-1)})` for `c > t`.
+      `K = kron(kron(kron(kron(I_{2^t}, g − I₂), I_{2^(c-t-1)}), I₂ − Z), I_{2^(n-c-1)})` for `c > t`;
+  * `projectorsZ_eq_literal` : `reduce(np.kron, [P_s if i == q else I₂ for i in range(n)])`;
+  * `rho0_eq_literal` : `reduce(np.kron, n * [|0⟩⟨0|])` (`create_n_product_state`).
 
   Method: `Rep` is compatible with `kron` by a 2×2 block on a new last qubit (`rep_kronLast`) and by an identity block
   (`rep_kronEye`); on the Hilbert side the chains are `oneQ` / `twoQ` by the Kronecker recursions of
@@ -235,6 +237,98 @@ theorem getTwoQubitControlledGate_eq_literal (n c t : Nat) (hc : c < n) (ht : t 
   have h2 := rep_literalCtrl n c t hc ht hct g _ hg2
   rw [ctrlG_eq n c t hc ht hct] at h2
   exact rep_eqOn hrep h2
+
+/-! ### `reduce(np.kron, …)`: the Z projectors and the initial state -/
+
+/-- `functools.reduce(np.kron, list)` (no initial value: starts from the first element) -/
+def reduceKron : List Mat → Mat
+  | [] => Mat.eye 1
+  | x :: rest => rest.foldl Mat.kron x
+
+theorem reduceKron_snoc (l : List Mat) (y : Mat) (hl : l ≠ []) : reduceKron (l ++ [y]) = Mat.kron (reduceKron l) y := by
+  cases l with
+  | nil => exact absurd rfl hl
+  | cons x rest => simp [reduceKron, List.foldl_append]
+
+theorem rep1_of_rep2 {g : Mat} {u : Matrix Bool Bool ℂ} (hg : Rep2 g u) : Rep 1 g (oneQ 1 0 u) := by
+  have := rep_getOneQubitGate 1 0 (by norm_num) g u hg
+  unfold DM.getOneQubitGate at this
+  rwa [if_pos rfl] at this
+
+theorem kronLast_one_one (m : Nat) : kronLast (1 : DMat m) 1 = 1 := by
+  rw [kronLast_one, oneQ_one]
+
+/-- the list `[blk if i == q else I₂ for i in range(m+1)]` reduced by `np.kron` -/
+theorem rep_reduce_site (q : Nat) (blk : Mat) (u : Matrix Bool Bool ℂ) (hb : Rep2 blk u) : ∀ m : Nat,
+    Rep (m + 1) (reduceKron ((List.range (m + 1)).map fun i => if i = q then blk else Mat.id2))
+      (if q ≤ m then oneQ (m + 1) q u else 1)
+  | 0 => by
+    show Rep 1 (if 0 = q then blk else Mat.id2) _
+    by_cases h : q = 0
+    · subst h
+      rw [if_pos rfl, if_pos (Nat.le_refl 0)]
+      exact rep1_of_rep2 hb
+    · rw [if_neg (fun e => h e.symm), if_neg (by omega)]
+      have := rep1_of_rep2 rep2_id2
+      rwa [oneQ_one] at this
+  | m + 1 => by
+    rw [List.range_succ, List.map_append, List.map_singleton, reduceKron_snoc _ _ (by simp)]
+    have ih := rep_reduce_site q blk u hb m
+    by_cases h1 : q ≤ m
+    · rw [if_pos h1] at ih
+      have hne : ¬ m + 1 = q := by omega
+      rw [if_neg hne, if_pos (by omega)]
+      have := rep_kronLast ih rep2_id2
+      refine this.congr ?_
+      ext a b
+      exact (oneQ_succ_lower (m + 1) q (by omega) u a b).symm
+    · rw [if_neg h1] at ih
+      by_cases h2 : q = m + 1
+      · subst h2
+        rw [if_pos rfl, if_pos (Nat.le_refl _)]
+        have := rep_kronLast ih hb
+        rwa [kronLast_one] at this
+      · rw [if_neg (fun e => h2 e.symm), if_neg (by omega)]
+        have := rep_kronLast ih rep2_id2
+        rwa [kronLast_one_one] at this
+
+theorem rep2_proj0 : Rep2 Mat.proj0 (ketBra2 false false) := rep2_ketBra00
+theorem rep2_proj1 : Rep2 Mat.proj1 (ketBra2 true true) :=
+  rep2_m2 _ _ _ _ _ (by simp [ketBra2]) (by simp [ketBra2]) (by simp [ketBra2]) (by simp [ketBra2])
+
+/-- **`projectors_zbasis`: the closed form is the literal `reduce(np.kron, [P_s if i == q else I₂ …])`** -/
+theorem projectorsZ_eq_literal (n q : Nat) (hq : q < n) :
+    ∃ p0 p1, DM.projectorsZ n q = .ok (p0, p1) ∧
+      Mat.EqOn p0 (reduceKron ((List.range n).map fun i => if i = q then Mat.proj0 else Mat.id2)) ∧
+      Mat.EqOn p1 (reduceKron ((List.range n).map fun i => if i = q then Mat.proj1 else Mat.id2)) := by
+  obtain ⟨p0, p1, e, r0, r1⟩ := rep_projectorsZ n q hq
+  obtain ⟨m, hm⟩ : ∃ m, n = m + 1 := ⟨n - 1, by omega⟩
+  subst hm
+  have l0 := rep_reduce_site q Mat.proj0 _ rep2_proj0 m
+  have l1 := rep_reduce_site q Mat.proj1 _ rep2_proj1 m
+  rw [if_pos (by omega)] at l0 l1
+  exact ⟨p0, p1, e, rep_eqOn r0 l0, rep_eqOn r1 l1⟩
+
+/-- `create_n_product_state(n, |0⟩)` = `reduce(np.kron, n * [|0⟩⟨0|])` -/
+theorem rep_reduce_ket0 : ∀ m : Nat,
+    Rep (m + 1) (reduceKron (List.replicate (m + 1) Mat.proj0)) (DMH.ket0H (m + 1))
+  | 0 => by
+    have := rep1_of_rep2 rep2_proj0
+    refine this.congr ?_
+    ext a b
+    rw [ket0H_succ 0 a b, oneQ_succ_last 0 _ a b]
+    congr 1
+  | m + 1 => by
+    rw [List.replicate_succ', reduceKron_snoc _ _ (by simp)]
+    have := rep_kronLast (rep_reduce_ket0 m) rep2_proj0
+    refine this.congr ?_
+    ext a b
+    exact (ket0H_succ (m + 1) a b).symm
+
+/-- the initial matrix of `compileDM` is the literal `reduce(np.kron, n * [|0⟩⟨0|])` -/
+theorem rho0_eq_literal (m : Nat) :
+    Mat.EqOn (⟨DM.pow2 (m + 1), fun i j => if i = 0 ∧ j = 0 then 1 else 0⟩ : Mat) (reduceKron (List.replicate (m + 1) Mat.proj0)) :=
+  rep_eqOn (rep_rho0 (m + 1)) (rep_reduce_ket0 m)
 
 end Hilbert
 end Graphiq
